@@ -55,10 +55,10 @@ func init() {
 				n = c16PermCases + 100000
 			}
 			return fw.Meta{N: n, Level: "exploration", Chunk: 25, CaseTimeoutS: 120, MinNT: 100,
-				Rule: "cases 0..69 enumerate all 5913 insertion orders of 1..7 distinct keys (exhaustive for that sub-space, each under the int / difference-valued int and the reversed-int comparator); " +
-					"remaining cases are seeded: odd = skip list with 2..2000 keys in random order, all probe keys and a probe-pair sample for between-iterators incl. absent bounds and lo>hi; " +
-					"even = priority queue over 0..8 ascending inputs of length 0..50 with duplicate keys across inputs. Non-trivial: >=2 keys (skip list) or >=2 non-empty inputs sharing >=1 key (queue); distinct by hash of the insertion order / input lists",
-				MinObs:      map[string]int64{"perms_checked": 5913, "between_iterators_checked": 1000, "pq_elements_checked": 1000, "lo_gt_hi_rejected": 50},
+				Rule: "cases 0..69 enumerate all 5913 insertion orders of 1..7 distinct keys (exhaustive for that sub-space, each under the int / difference-valued int and the reversed-int comparator, and once more with a lookup of the NEXT key before every insert); " +
+					"remaining cases are seeded: odd = skip list with 2..2000 keys in random order, lookups interleaved with the inserts in two thirds of them (checked against the set inserted so far; byte keys through one reused probe buffer), all probe keys and a probe-pair sample for between-iterators incl. absent bounds and lo>hi; " +
+					"even = priority queue over 0..8 ascending inputs of length 0..50 with duplicate keys across inputs, a quarter of the inputs signalling exhaustion with an error that wraps Done. Non-trivial: >=2 keys (skip list) or >=2 non-empty inputs sharing >=1 key (queue); distinct by hash of the insertion order / input lists",
+				MinObs:      map[string]int64{"perms_checked": 5913, "between_iterators_checked": 1000, "pq_elements_checked": 1000, "lo_gt_hi_rejected": 50, "lookups_between_inserts": 10000, "pq_inputs_ending_with_wrapped_done": 100},
 				Assumptions: []string{"comparators are consistent total orders", "keys inserted into the skip list are distinct (documented REQUIRES)"},
 			}
 		},
@@ -77,8 +77,9 @@ func runC16(c *fw.Case) {
 					for i, v := range p {
 						keys[i] = v*10 + 5
 					}
-					c16SkipInt(c, keys, false, true)
-					c16SkipInt(c, keys, true, true)
+					c16SkipInt(c, keys, false, true, 0)
+					c16SkipInt(c, keys, true, true, 0)
+					c16SkipInt(c, keys, false, false, 1)
 					c.Obs("perms_checked", 1)
 					if n >= 2 {
 						dnt++
@@ -109,7 +110,7 @@ func runC16(c *fw.Case) {
 				keys[i] = v*3 - n // negative and positive
 			}
 			c.HashAdd("int", fmt.Sprint(keys))
-			c16SkipInt(c, keys, c.R.Intn(2) == 0, n <= 40)
+			c16SkipInt(c, keys, c.R.Intn(2) == 0, n <= 40, c.R.Intn(3))
 			if c.Idx < c16PermCases+8 {
 				c.Sample(map[string]any{"kind": "skiplist-int", "n": n, "first_inserted": keys[:min(8, n)]})
 			}
@@ -237,7 +238,10 @@ func c16Check[K any](c *fw.Case, name string, m skiplist.MapI[K, int], cmp skipl
 	}
 }
 
-func c16SkipInt(c *fw.Case, keys []int, reversed bool, allPairs bool) {
+// inter: 0 = build, then probe; 1 = before every insert look up the key that is inserted NEXT (absent at that moment);
+// 2 = seeded lookups (present, about to be inserted, neighbours) between the inserts. Every interleaved lookup is
+// compared with the set inserted so far: a map must not carry state from a lookup into a later insert.
+func c16SkipInt(c *fw.Case, keys []int, reversed bool, allPairs bool, inter int) {
 	var cmp skiplist.Comparator[int] = skiplist.OrderedComparator[int]{}
 	name := "int"
 	if reversed {
@@ -248,8 +252,41 @@ func c16SkipInt(c *fw.Case, keys []int, reversed bool, allPairs bool) {
 		name = "int-difference-comparator"
 	}
 	m := skiplist.NewSkipListMap[int, int](cmp)
-	for _, k := range keys {
+	if inter != 0 {
+		name += fmt.Sprintf("-interleaved%d", inter)
+	}
+	have := map[int]bool{}
+	look := func(p int) {
+		c.Obs("lookups_between_inserts", 1)
+		v, err := m.Get(p)
+		if have[p] {
+			if err != nil || v != p*7+1 || !m.Contains(p) {
+				c.Violate("skiplist/interleaved/get", "%s: after inserting %d keys Get(%d)=(%d,%v) want (%d,nil)", name, len(have), p, v, err, p*7+1)
+			}
+		} else if !errors.Is(err, skiplist.NotFound) || m.Contains(p) {
+			c.Violate("skiplist/interleaved/get-absent", "%s: after inserting %d keys Get(absent %d)=(%d,%v)", name, len(have), p, v, err)
+		}
+	}
+	for i, k := range keys {
+		switch inter {
+		case 1:
+			if i+1 < len(keys) {
+				look(keys[i+1])
+			}
+		case 2:
+			for n := c.R.Intn(3); n > 0; n-- {
+				switch c.R.Intn(3) {
+				case 0:
+					look(keys[min(len(keys)-1, i+1+c.R.Intn(2))])
+				case 1:
+					look(keys[c.R.Intn(i+1)])
+				default:
+					look(keys[c.R.Intn(len(keys))] + c.R.Intn(3) - 1)
+				}
+			}
+		}
 		m.Insert(k, k*7+1)
+		have[k] = true
 	}
 	sorted := append([]int{}, keys...)
 	sort.Slice(sorted, func(i, j int) bool { return cmp.Compare(sorted[i], sorted[j]) < 0 })
@@ -275,9 +312,34 @@ func c16SkipBytes(c *fw.Case, ks [][]byte) {
 	cmp := skiplist.BytesComparator{}
 	m := skiplist.NewSkipListMap[[]byte, int](cmp)
 	val := func(k []byte) int { return len(k)*31 + int(sumBytes(k)) }
-	for _, k := range ks {
+	inter := c.R.Intn(2) == 0
+	probeBuf := make([]byte, 0, 64) // lookups go through ONE reused buffer that is overwritten right afterwards
+	have := map[string]bool{}
+	for i, k := range ks {
 		c.HashAdd(k)
+		if inter {
+			for n := c.R.Intn(3); n > 0; n-- {
+				p := ks[min(len(ks)-1, i+c.R.Intn(3))]
+				if c.R.Intn(3) == 0 {
+					p = ks[c.R.Intn(i+1)]
+				}
+				probeBuf = append(probeBuf[:0], p...)
+				v, err := m.Get(probeBuf)
+				c.Obs("lookups_between_inserts", 1)
+				if have[string(p)] {
+					if err != nil || v != val(p) {
+						c.Violate("skiplist/interleaved/get", "bytes: after inserting %d keys Get(%x)=(%d,%v) want (%d,nil)", len(have), p, v, err, val(p))
+					}
+				} else if !errors.Is(err, skiplist.NotFound) {
+					c.Violate("skiplist/interleaved/get-absent", "bytes: after inserting %d keys Get(absent %x)=(%d,%v)", len(have), p, v, err)
+				}
+				for j := range probeBuf {
+					probeBuf[j] ^= 0x5a
+				}
+			}
+		}
 		m.Insert(k, val(k))
+		have[string(k)] = true
 	}
 	sorted := append([][]byte{}, ks...)
 	sort.Slice(sorted, func(i, j int) bool { return cmp.Compare(sorted[i], sorted[j]) < 0 })
@@ -338,13 +400,17 @@ type c16Elem struct {
 }
 
 type c16Iter struct {
-	ctx   int
-	elems []c16Elem
-	pos   int
+	ctx     int
+	elems   []c16Elem
+	pos     int
+	wrapEnd bool // signals exhaustion with an error that WRAPS Done (errors.Is is the documented way to test for it)
 }
 
 func (it *c16Iter) Next() ([]byte, int, error) {
 	if it.pos >= len(it.elems) {
+		if it.wrapEnd {
+			return nil, 0, fmt.Errorf("input %d has no more elements: %w", it.ctx, pq.Done)
+		}
 		return nil, 0, pq.Done
 	}
 	e := it.elems[it.pos]
@@ -383,7 +449,11 @@ func c16PQ(c *fw.Case) {
 		}
 		inputs = append(inputs, el)
 		// context deliberately not equal to the position in the slice
-		iters = append(iters, &c16Iter{ctx: 100 + i*3, elems: el})
+		wrapEnd := c.R.Intn(4) == 0
+		if wrapEnd {
+			c.Obs("pq_inputs_ending_with_wrapped_done", 1)
+		}
+		iters = append(iters, &c16Iter{ctx: 100 + i*3, elems: el, wrapEnd: wrapEnd})
 		c.HashAdd("|")
 	}
 	dups := 0
